@@ -1,0 +1,20 @@
+package validator
+
+import (
+	"io"
+
+	"github.com/open-policy-agent/opa/rego"
+	"github.com/open-policy-agent/opa/topdown"
+)
+
+// keepPrintCalls makes the compiler keep print(...) calls instead of erasing them, and discards what they print.
+// Erasure happens before the check for unsafe built-in functions, so `print(http.send(...))` in a profile's Rego used
+// to be accepted (with the call removed) instead of being rejected like any other call of http.send.
+func keepPrintCalls() func(*rego.Rego) {
+	enable := rego.EnablePrintStatements(true)
+	discard := rego.PrintHook(topdown.NewPrintHook(io.Discard))
+	return func(r *rego.Rego) {
+		enable(r)
+		discard(r)
+	}
+}
